@@ -13,13 +13,23 @@ thread_local! {
     /// double free inside the allocator)
     static FREED: RefCell<HashSet<(usize, u64)>> = RefCell::new(HashSet::new());
     static SUPPRESS: Cell<bool> = Cell::new(false);
+    /// instances of the instrumented types (0..=9) constructed minus dropped
+    pub static LIVE: Cell<i64> = Cell::new(0);
     static NEXT_CLONE_SERIAL: Cell<u64> = Cell::new(1_000_000);
     pub static CLONES: RefCell<Vec<(usize, u64, u64)>> = RefCell::new(Vec::new());
 }
 
 pub const NTYPES: usize = 11;
 
+pub fn live_inc() {
+    LIVE.with(|l| l.set(l.get() + 1));
+}
+pub fn live() -> i64 {
+    LIVE.with(|l| l.get())
+}
+
 fn record(t: usize, serial: u64) -> bool {
+    LIVE.with(|l| l.set(l.get() - 1));
     // returns true when this is the first drop of that instance
     let first = FREED.with(|f| f.borrow_mut().insert((t, serial)));
     if !SUPPRESS.with(|s| s.get()) {
@@ -29,6 +39,7 @@ fn record(t: usize, serial: u64) -> bool {
 }
 
 fn record_zst(t: usize) {
+    LIVE.with(|l| l.set(l.get() - 1));
     if !SUPPRESS.with(|s| s.get()) {
         LEDGER.with(|l| l.borrow_mut().push((t, 0)));
     }
@@ -90,6 +101,7 @@ pub struct A(u64);
 impl Comp for A {
     const IDX: usize = 0;
     fn new(s: u64) -> Self {
+        live_inc();
         A(s)
     }
     fn serial(&self) -> u64 {
@@ -103,6 +115,7 @@ impl Drop for A {
 }
 impl Clone for A {
     fn clone(&self) -> Self {
+        live_inc();
         A(clone_serial(0, self.0))
     }
 }
@@ -112,6 +125,7 @@ pub struct B(u32);
 impl Comp for B {
     const IDX: usize = 1;
     fn new(s: u64) -> Self {
+        live_inc();
         B(s as u32)
     }
     fn serial(&self) -> u64 {
@@ -125,6 +139,7 @@ impl Drop for B {
 }
 impl Clone for B {
     fn clone(&self) -> Self {
+        live_inc();
         B(clone_serial(1, self.0 as u64) as u32)
     }
 }
@@ -138,6 +153,7 @@ pub struct C {
 impl Comp for C {
     const IDX: usize = 2;
     fn new(s: u64) -> Self {
+        live_inc();
         C { lo: s as u16, hi: (s >> 16) as u16 }
     }
     fn serial(&self) -> u64 {
@@ -164,6 +180,7 @@ pub struct D {
 impl Comp for D {
     const IDX: usize = 3;
     fn new(s: u64) -> Self {
+        live_inc();
         D { serial: s, pad: [s ^ 0x5555; 7] }
     }
     fn serial(&self) -> u64 {
@@ -190,6 +207,7 @@ pub struct E(ManuallyDrop<Box<u64>>, u64);
 impl Comp for E {
     const IDX: usize = 4;
     fn new(s: u64) -> Self {
+        live_inc();
         E(ManuallyDrop::new(Box::new(s)), s)
     }
     fn serial(&self) -> u64 {
@@ -214,6 +232,7 @@ pub struct S(ManuallyDrop<String>, u64);
 impl Comp for S {
     const IDX: usize = 5;
     fn new(s: u64) -> Self {
+        live_inc();
         S(ManuallyDrop::new(format!("serial-{}", s)), s)
     }
     fn serial(&self) -> u64 {
@@ -238,6 +257,7 @@ pub struct L([u64; 40]);
 impl Comp for L {
     const IDX: usize = 6;
     fn new(s: u64) -> Self {
+        live_inc();
         let mut a = [0u64; 40];
         for (i, x) in a.iter_mut().enumerate() {
             *x = s.wrapping_add(i as u64 * 7919);
@@ -269,6 +289,7 @@ pub struct Z;
 impl Comp for Z {
     const IDX: usize = 7;
     fn new(_: u64) -> Self {
+        live_inc();
         Z
     }
     fn serial(&self) -> u64 {
@@ -282,6 +303,7 @@ impl Drop for Z {
 }
 impl Clone for Z {
     fn clone(&self) -> Self {
+        live_inc();
         Z
     }
 }
@@ -292,6 +314,7 @@ pub struct ZA;
 impl Comp for ZA {
     const IDX: usize = 8;
     fn new(_: u64) -> Self {
+        live_inc();
         ZA
     }
     fn serial(&self) -> u64 {
@@ -309,6 +332,7 @@ impl Drop for ZA {
 }
 impl Clone for ZA {
     fn clone(&self) -> Self {
+        live_inc();
         ZA
     }
 }
@@ -319,6 +343,7 @@ pub struct ZB;
 impl Comp for ZB {
     const IDX: usize = 9;
     fn new(_: u64) -> Self {
+        live_inc();
         ZB
     }
     fn serial(&self) -> u64 {
@@ -336,6 +361,7 @@ impl Drop for ZB {
 }
 impl Clone for ZB {
     fn clone(&self) -> Self {
+        live_inc();
         ZB
     }
 }
